@@ -30,7 +30,7 @@ type readerModel struct {
 	Stores    map[*ssa.Function][]fieldStore
 	ElemCmps  map[*ssa.Function][]StrCmp // comparisons of StartElement.Name.Local
 	AttrCmps  map[*ssa.Function][]StrCmp // comparisons of Attr.Name.Local
-	Allocs    map[*types.Named]bool     // struct types allocated in reader functions
+	Allocs    map[*types.Named]bool      // struct types allocated in reader functions
 	allocSite map[*types.Named]token.Pos
 }
 
